@@ -19,7 +19,7 @@ FlatS(ss) == IF ss = << >> THEN << >> ELSE Head(ss) \o FlatS(Tail(ss))
 
 \* inner-barrel frame variants: which lanes, which chip ids, which bunch counters
 LaneSets == { <<3, 4, 5>>, <<0, 1, 2>>, <<6, 7, 8>>, <<3, 4>>, <<3, 4, 5, 6>>, <<2, 3, 4>>, <<0, 4, 8>>, <<5, 4, 3>> }
-Cases == [lanes : LaneSets, badChip : {0, 1, 2}, bcs : {<<17, 17>>, <<17, 200>>}, shape : Shapes]
+Cases == [lanes : LaneSets, badChip : {0, 1, 2}, bcs : {<<17, 17>>, <<17, 200>>, <<0, 0>>, <<0, 17>>}, shape : Shapes]
 \* lane i gets chip id = lane unless badChip = i (then lane+1); bunch counter bcs[1] except the last lane gets bcs[2]
 LanesOf(x) == [i \in 1..Len(x.lanes) |-> [id |-> 32 + x.lanes[i],
                                            chip |-> IF x.badChip = i THEN (x.lanes[i] + 1) % 16 ELSE x.lanes[i],
